@@ -3,8 +3,8 @@
 (*   stream|from().groupBy('g')|window().period(P).every(E)[.align()][.fillPeriod()]|log().prefix('w') *)
 (* did for ONE group (the driver c03 demultiplexes the sink by group; the   *)
 (* groups of a task are interleaved on the real node).  Lines:              *)
-(*   Reset {period, every, use_align, fill, sink}  sink = batches the log   *)
-(*          sink saw for this group, in order: [{tmax, pts: [[t,seq],..]}]  *)
+(*   Reset {period, every, use_align, fill, sink}   sink = the batches the  *)
+(*          log sink saw for this group, in order: [{tmax, pts: [[t,seq],..]}] *)
 (*   Point {t, seq}     the group received this point                       *)
 (*   End                the task was stopped (StopTask drains; the window   *)
 (*                      node flushes nothing)                               *)
@@ -26,7 +26,7 @@ G == CHOOSE g \in Groups : TRUE
 
 BranchSeq == <<"grow_empty", "grow_contig", "grow_wrapped", "wrap", "wrap_after_drain", "append", "overwrite",
                "purge_nil", "purge_contig", "purge_tail_valid", "purge_tail_expired",
-               "purge_start_eq_len", "purge_tail_stale", "purge_drain", "purge_drain_at_end", "purge_none">>
+               "purge_start_eq_len", "purge_guard_decides", "purge_tail_stale", "purge_drain", "purge_drain_at_end", "purge_none">>
 BIdx(b) == 10 + (CHOOSE i \in DOMAIN BranchSeq : BranchSeq[i] = b)
 CountHits(S) == \A b \in S : TLCSet(BIdx(b), TLCGet(BIdx(b)) + 1)
 
